@@ -465,7 +465,9 @@ func cmdCheck(args []string) int {
 					unevaluable = false
 				}
 			}
-			if unevaluable && first != "" {
+			if strings.Contains(a.Name, "#shared[") {
+				report(a.Name, "the function writes, or hands out for writing, a package-level variable — state shared by every caller and goroutine that no contract names ("+a.Src+")", a)
+			} else if unevaluable && first != "" {
 				// not a refutation: the clause names a local, field or call site the current code no longer has
 				report(a.Name, "contract no longer applies to the code — the clause cannot be evaluated ("+first+"): undecided until the contract is updated with the code", a)
 			} else {
